@@ -191,7 +191,24 @@ def _poly(tdgl, spec, name):
         raise ValueError(k)
     if spec.get("reverse"):
         pts = pts[::-1]
-    p = tdgl.Polygon(name, points=pts)
+    flag = spec.get("mesh_flag")     # the documented per-polygon option `mesh`, and how the polygon came to carry it
+    if flag == "ctor":               # Polygon(..., mesh=False)
+        p = tdgl.Polygon(name, points=pts, mesh=False)
+    elif flag in ("terminal-translate", "terminal-copy", "terminal-scale"):
+        # history: the outline was once a terminal of another Device (which sets mesh=False on it in place);
+        # the polygon used here is derived from it
+        shift = (7.0, -3.0)
+        lead = tdgl.Polygon("lead", points=pts + np.array([shift]) if flag == "terminal-translate" else pts)
+        other_film = tdgl.Polygon("f", points=box(4, 4, points=16, center=tuple(np.asarray(lead.points).mean(axis=0))))
+        tdgl.Device("other", layer=tdgl.Layer(coherence_length=1.0, london_lambda=2.0, thickness=0.1), film=other_film, terminals=[lead])
+        if flag == "terminal-translate":
+            p = lead.translate(dx=-shift[0], dy=-shift[1])
+        elif flag == "terminal-copy":
+            p = lead.copy()
+        else:
+            p = lead.scale(xfact=1.0, yfact=1.0)
+    else:
+        p = tdgl.Polygon(name, points=pts)
     for u in spec.get("union", []):
         p = p.union(_poly(tdgl, u, name))
     for u in spec.get("minus", []):
@@ -245,7 +262,8 @@ def observe_device(dev, key, full=True):
     if span * U > 2.0e4:                                  # keep cross products below 2^31
         U = 10.0 ** math.floor(math.log10(2.0e4 / span))
     q = lambda xy: [int(round((xy[0] - c0[0]) * U)), int(round((xy[1] - c0[1]) * U))]
-    g = {"kind": "gen", "key": key, "holes": len(holes), "U": U, "nsites": nsites}
+    g = {"kind": "gen", "key": key, "holes": len(holes), "U": U, "nsites": nsites,
+         "hole_mesh_flags": [bool(h.mesh) for h in holes]}
     g["P"] = [q(p) for p in pts]
     g["T"] = [[int(a) + 1 for a in t] for t in tri]
     g["E"] = [[int(a) + 1, int(b) + 1] for a, b in edges]
